@@ -275,6 +275,49 @@ def run_impl(case, mgr=None):
     return out, problems
 
 
+# ------------------------------------------------------------ hang guard
+class Hung(Exception):
+    pass
+
+
+class deadline:
+    """ the real RESULTS_STORE_LOCK is not re-entrant: code that asks for it
+    while holding it blocks for ever.  Turn that into an exception, and
+    leave the lock free for whatever runs next. """
+    def __init__(self, seconds, what):
+        self.seconds, self.what = seconds, what
+
+    def __enter__(self):
+        import signal
+
+        def on_alarm(*_a):
+            raise Hung(f"{self.what}: no progress for {self.seconds} s "
+                       "(blocked on the results-store lock?)")
+        self.old = signal.signal(signal.SIGALRM, on_alarm)
+        signal.alarm(self.seconds)
+        return self
+
+    def __exit__(self, etype, *_a):
+        import signal
+        signal.alarm(0)
+        signal.signal(signal.SIGALRM, self.old)
+        if etype is not None:
+            free_store_lock()
+        return False
+
+
+def free_store_lock():
+    import searchkit.results_store as RS
+    lock = RS.RESULTS_STORE_LOCK
+    if lock.acquire(timeout=0.2):
+        lock.release()
+        return
+    try:
+        lock.release()          # left behind by a blocked / killed holder
+    except ValueError:
+        pass
+
+
 # ------------------------------------------------------------ real forks
 def fork_scenario(rng, n):
     bsize = [4, 2, 1000][n % 3] if n < 3 else rng.choice([2, 3, 4, 1000])
@@ -321,13 +364,18 @@ def fork_after_use(mgr, bsize, pre, children, post):
              for k, vals in enumerate(children)]
     for p in procs:
         p.start()
-    for v in post:
-        handed.append([st.add(None, None, v)[2], v])
-    st.sync()
+    parent_error = None
+    try:
+        with deadline(20, "creator's adds + sync"):
+            for v in post:
+                handed.append([st.add(None, None, v)[2], v])
+            st.sync()
+    except Exception as exc:  # pylint: disable=broad-except
+        parent_error = f"{type(exc).__name__}: {exc}"
     kids = {}
     try:
         for _ in procs:
-            k, status, got, msg = q.get(timeout=60)
+            k, status, got, msg = q.get(timeout=30)
             kids[k] = {'status': status, 'handed': got, 'message': msg}
     except queue.Empty:
         pass
@@ -338,7 +386,8 @@ def fork_after_use(mgr, bsize, pre, children, post):
     for k in range(len(children)):
         kids.setdefault(k, {'status': 'no-answer', 'handed': [],
                             'message': ''})
-    return {'parent': handed,
+    free_store_lock()
+    return {'parent': handed, 'parent_error': parent_error,
             'children': [kids[k] for k in range(len(children))],
             'shared': dict(st.data)}
 
@@ -349,6 +398,8 @@ def judge_fork(obs):
     worker that is REFUSED (ResultStoreException) was handed nothing and is
     fine. """
     bad = []
+    if obs.get('parent_error'):
+        bad.append(f"creating process: {obs['parent_error']}")
     owners = {}
     who = [('parent', obs['parent'])] + [
         (f"worker {k}", c['handed']) for k, c in enumerate(obs['children'])]
@@ -365,7 +416,7 @@ def judge_fork(obs):
         if c['status'] == 'refused' and c['handed']:
             bad.append(f"worker {k} was refused after being handed "
                        f"{c['handed']}")
-    done = [('parent', obs['parent'])] + [
+    done = ([] if obs.get('parent_error') else [('parent', obs['parent'])]) + [
         (f"worker {k}", c['handed']) for k, c in enumerate(obs['children'])
         if c['status'] == 'ok']
     for name, pairs in done:
@@ -499,13 +550,23 @@ def run(chk):
     mgr = None
     outs, coq_cases, wants, ran = [], [], [], []
     seen = set()
+    hangs = 0
     try:
         for c in cases:
             if c['kind'] == 2 and mgr is None:
                 mgr = multiprocessing.Manager()
             try:
-                out, problems = run_impl(c, mgr)
+                if c['kind'] == 2:
+                    if hangs >= 2:          # do not wait for the same hang
+                        chk.dist('manager-backed-histories-skipped-after-hangs')
+                        continue
+                    with deadline(10 if len(c['ops']) < 200 else 60,
+                                  "manager-backed history"):
+                        out, problems = run_impl(c, mgr)
+                else:
+                    out, problems = run_impl(c, mgr)
             except Exception as exc:  # pylint: disable=broad-except
+                hangs += isinstance(exc, Hung)
                 chk.violation(
                     f"store-raised kind={c['kind']} bsize={c['bsize']}: "
                     f"{type(exc).__name__}",
